@@ -114,6 +114,65 @@ impl Prop for C04Prop {
                     }
                 }
             }
+            // searches restricted by a target (every source x a few targets x first_only x with_paths)
+            if n > 0 {
+                let targets: Vec<usize> = if n <= 6 { (0..n).collect() } else { (0..3).map(|_| rng.below(n)).collect() };
+                for &s in &sources {
+                    for &t in &targets {
+                        for first_only in [false, true] {
+                            for with_paths in [true, false] {
+                                if with_paths && !first_only && !all_paths_ok {
+                                    continue;
+                                }
+                                let (sn, tn) = (snap.names[s].clone(), snap.names[t].clone());
+                                let r = rt::call("dijkstra::single_source(target)", budget, || dijkstra::single_source(g, weighted, sn.clone(), Some(tn.clone()), None, first_only, with_paths));
+                                let got = match r {
+                                    Ok(Ok(m)) => algo::sp_conv(m),
+                                    Ok(Err(e)) => {
+                                        cx.fail("C04.single_source", "single_source(target) returned Err", format!("single_source({:?}, target {:?}, {}) failed: {:?}", sn, tn, mode, e.kind));
+                                        return;
+                                    }
+                                    Err(p) => {
+                                        cx.fail("C04.panic", "single_source(target) panicked", format!("single_source({:?}, target {:?}, {}) panicked: {}", sn, tn, mode, p.0));
+                                        return;
+                                    }
+                                };
+                                cx.count("single_source_with_target_calls");
+                                viol!("single_source", algo::verify_with_target(snap, &orc, s, t, &got, &SpCheck { first_only, with_paths, sets }, PATH_CAP as usize));
+                            }
+                        }
+                    }
+                }
+                // the same through all_pairs / multi_source with a target
+                let t = rng.below(n);
+                let tn = snap.names[t].clone();
+                for first_only in [true, false] {
+                    let with_paths = first_only || all_paths_ok;
+                    match rt::call("dijkstra::all_pairs(target)", budget, || pool::scoped(env.pool, || dijkstra::all_pairs(g, weighted, Some(tn.clone()), None, first_only, with_paths))) {
+                        Ok(Ok(m)) => {
+                            let m = algo::sp2_conv(m);
+                            for s in 0..n {
+                                match m.get(&snap.names[s]) {
+                                    Some(e) => viol!("all_pairs", algo::verify_with_target(snap, &orc, s, t, e, &SpCheck { first_only, with_paths, sets }, PATH_CAP as usize)),
+                                    None => {
+                                        cx.fail("C04.all_pairs", "all_pairs(target): source missing", format!("all_pairs(target {:?}) has no entry for source {:?}", tn, snap.names[s]));
+                                        return;
+                                    }
+                                }
+                            }
+                            cx.count("all_pairs_with_target_calls");
+                        }
+                        Ok(Err(e)) => {
+                            cx.fail("C04.all_pairs", "all_pairs(target) returned Err", format!("all_pairs(target {:?}) failed: {:?}", tn, e.kind));
+                            return;
+                        }
+                        Err(p) => {
+                            cx.fail("C04.panic", "all_pairs(target) panicked", format!("all_pairs(target {:?}) panicked: {}", tn, p.0));
+                            return;
+                        }
+                    }
+                }
+            }
             // multi_source and all_pairs (parallel above 20 nodes when the pool has > 1 worker)
             if n > 0 {
                 let k = rng.range(1, n.min(8));
